@@ -144,6 +144,30 @@ class LenFacts:
         return ex is not None and ex == ({}, n)
 
 
+def _membership_known(s, base, idx) -> bool:
+    from .util import implied_atoms
+    b, i = strip_sites(base), strip_sites(idx)
+    ok = False
+    for c, v in implied_atoms(s.conds):
+        if c[0] == "cmp" and len(c) == 4 and strip_sites(c[2]) == i and strip_sites(c[3]) == b \
+                and ((c[1] == "in" and v) or (c[1] == "not in" and not v)):
+            ok = True
+    if not ok:
+        return False
+    for e in s.events:
+        if e.kind == "call" and e.recv is not None and strip_sites(e.recv) == b \
+                and e.attrname in ("pop", "popitem", "clear", "remove", "discard", "__delitem__"):
+            return False
+        if e.kind == "store" and e.target is not None and e.target[0] == "item" and strip_sites(e.target[1]) == b \
+                and e.value == ("deleted",):
+            return False
+        if e.kind == "store" and e.target is not None and strip_sites(e.target) == b:
+            return False  # the container itself was replaced
+        if e.kind == "call" and e.targets and not e.inlined:
+            return False  # a package callee ran in between: it may have removed the key
+    return True
+
+
 # ------------------------------------------------------------------------------- policy
 class EscapePolicy(InlineOnly):
     """forks every raise point whose failure is not excluded; callee escape sets come from `oracle`"""
@@ -172,6 +196,8 @@ class EscapePolicy(InlineOnly):
                 return []
             if kind == "tuple":
                 return []
+            if _membership_known(s, base, idx):
+                return []  # `idx in base` was established on this path and nothing was removed from base since
             return ["KeyError"]
         if ev.kind == "unpack":
             # `a, b = <value>`: fails with ValueError when the value does not have exactly n elements
